@@ -1,3 +1,3 @@
 From Coq Require Import ExtrOcamlBasic.
-From JV Require Import Model.Loop Spec.LoopSpec.
-Extraction "loop_x.ml" Loop.run Loop.run_for Loop.run_for_ctl Loop.rec_forest LoopSpec.spec LoopSpec.levels LoopSpec.cut.
+From JV Require Import Model.Loop Spec.LoopSpec Model.LoopGen.
+Extraction "loop_x.ml" Loop.run Loop.run_for Loop.run_for_ctl Loop.rec_forest LoopSpec.spec LoopSpec.levels LoopSpec.cut LoopGen.for_trace.
